@@ -276,7 +276,7 @@ const EXPR_CONSTRUCTS: [(&str, &str); 7] = [
 ];
 
 /// expression positions (H = hole)
-const EXPR_POSITIONS: [(&str, &str); 30] = [
+const EXPR_POSITIONS: [(&str, &str); 33] = [
     ("local-init", "local x = H"),
     ("return", "return H"),
     ("call-argument", "f(H)"),
@@ -287,6 +287,9 @@ const EXPR_POSITIONS: [(&str, &str); 30] = [
     ("table-positional", "x = {H}"),
     ("table-key", "x = {[H] = 1}"),
     ("table-named", "x = {k = H}"),
+    ("table-bracket-value", "x = {[1] = H}"),
+    ("table-bracket-value-after-others", "x = {1, k = 2, ['a b'] = H, 3}"),
+    ("return-list-middle", "return 1, H, 2"),
     ("table-call-sugar", "x = f{H}"),
     ("if-condition", "if H then end"),
     ("elseif-condition", "if c then elseif H then end"),
@@ -322,7 +325,7 @@ const STMT_CONSTRUCTS: [(&str, &str); 9] = [
     ("continue", "for i = 1, 3 do if i == 2 then continue end f(i) end"),
 ];
 
-const STMT_POSITIONS: [(&str, &str); 12] = [
+const STMT_POSITIONS: [(&str, &str); 20] = [
     ("top-level", "S"),
     ("do-block", "do S end"),
     ("function-body", "local function g() S end"),
@@ -335,6 +338,14 @@ const STMT_POSITIONS: [(&str, &str); 12] = [
     ("generic-for-body", "for k, v in pairs(t) do S end"),
     ("nested-function-in-loop", "for j = 1, 2 do local g = function() S end end"),
     ("after-other-statements", "f() S f()"),
+    ("function-in-table-bracket-value", "x = {[1] = function() S end}"),
+    ("function-in-table-named-value", "x = {k = function() S end}"),
+    ("function-in-table-positional", "x = {function() S end}"),
+    ("function-in-call-argument", "f(1, function() S end)"),
+    ("function-in-generic-for-header", "for k in (function() S end) do end"),
+    ("function-in-numeric-for-bound", "for i = 1, g(function() S end) do end"),
+    ("function-in-if-condition", "if g(function() S end) then end"),
+    ("function-in-return", "return function() S end"),
 ];
 
 /// continue in every loop kind / nesting
